@@ -433,6 +433,17 @@ def handler : Handler := fun op j =>
     some (ok (jObj [
       ("coded", jCMat (fun p q => propEval ns ms (mk ms false) (mk ns true) 1 (cscale (1.0 / Nin.toFloat)) D (basis q) p) Nin Nin),
       ("doc", jCMat (fun p q => propEvalDoc ns ms (mk ms false) (mk ms true) 1 (cscale (1.0 / Nout.toFloat)) D (basis q) p) Nin Nin)]))
+  | "euler" => do
+    -- homogeneous projection matrix of one view from the rotation matrix (scipy), spacings and shapes
+    let bs ← blocks? j "R"
+    let vs ← fFloats? j "vs"; let ds ← fFloats? j "ds"
+    let hin ← fFloats? j "half_in"; let hout ← fFloats? j "half_out"
+    match bs with
+    | [(R, _, _)] =>
+      let Mm := eulerM R (vecOf vs) (vecOf ds)
+      let t := eulerT R (vecOf vs) (vecOf ds) (vecOf hin) (vecOf hout)
+      some (ok (jFs ((List.range 2).flatMap (fun i => (List.range 3).map (Mm i) ++ [t i]))))
+    | _ => none
   | "dftinit" => do
     let shape ← fNats? j "shape"
     let axes := fInts? j "axes"
